@@ -2,7 +2,7 @@
 # real code (trace judged by the property's monitor) and on the compiled Lean model (observations
 # compared step by step, projected on the property's alphabet).
 import os, glob, hashlib, json
-import realworld, corr, walker, monitors, mqttparse
+import realworld, corr, walker, monitors, mqttparse, longrun
 from checklib import Result, ROOT
 from walker import s_tok, hx, connack, ack, suback, publish_pkt, pkt
 
@@ -20,6 +20,7 @@ def A(w=(), ret=(), fired=(), timers=(), other=()):
     return set(['w:' + x for x in w] + ['ret:' + x for x in ret] + ['fired:' + x for x in fired] + ['timers:' + x for x in timers] + list(other))
 
 ALPHABET = {
+    'C02': A(w=ALL_W),
     'C04': A(w=('CONNECT',), ret=('connect',), fired=('connect',), timers=('connack', 'ondisc'), other=('abort', 'ondisc', 'onconn', 'states', 'esc')),
     'C05': A(w=('PUBLISH', 'PUBREL'), ret=('publish',), fired=('publish',), other=('esc',)),
     'C06': A(w=('PUBACK', 'PUBREC', 'PUBCOMP'), other=('pub', 'esc')),
@@ -268,6 +269,11 @@ def generic(prop, ctx, nq, nt, steps, rule, weights=None, extra=None, **kw):
         t2 = run_scenarios(prop, ctx, ex, res, label='enumerated')
         res.extra['enumerated_scenarios'] = len(ex)
         res.all_traces += [(e[0], e[1], t) for e, t in zip(ex, t2)]
+    lr = longrun.for_prop(prop, ctx)
+    if lr:
+        t3 = run_scenarios(prop, ctx, lr, res, label='long')
+        res.extra['long_scenarios'] = {n: len(l) for n, l in lr}
+        res.all_traces += [(e[0], e[1], t) for e, t in zip(lr, t3)]
     if ws:
         res.sample(ws[0][1][:14])
     res.assumptions = ['Env: operations name existing protocols/timers; `lost p` at most once per protocol and no dataReceived after it; at most one '
@@ -294,6 +300,10 @@ def wrapold_walks(ctx, n, seed0, profiles=(3,), naddr=2, w1=None, w2=None, first
         W2.update(w2 or {})
         w.weights.update(W2)
         w.run(second)
+        if i % 2:
+            # a second lap: the requests issued around the first wrap are themselves old now (identifiers straddling 65535 -> 1 in the queue)
+            w.do('setid %d' % (65529 + i % 6))
+            w.run(second // 2)
         out.append(('wrapold%d' % seed, w.lines, w.trace))
     return out
 
@@ -524,6 +534,8 @@ def _c13(ctx):
                     break
                 w.do('fire %d' % e[0]._vid)
             out.append(('drain%d' % seed, w.lines, w.trace))
+        # identifier reuse overwrites a window entry and orphans its retry timer: walks over the counter's wrap (with a second lap), then drained
+        out += wrapold_walks(ctx, 10 if ctx['tier'] == 'quick' else 200, 9700, naddr=1, w1=dict(subscribe=2, unsubscribe=2, setwin=6))
         return out
     return generic('C13', ctx, 250, 6000, 60,
                    'corpus; seeded walks over all profiles and both session modes with the pending-timer snapshot judged after every step; drained walks: everything acknowledged, then up to 40 further '
@@ -820,6 +832,8 @@ def c16(ctx):
                             body = bytes([(L + k) >> 8, (L + k) & 255])[:1 + (L % 2)]
                         else:
                             body = bytes([(L + k) >> 8, (L + k) & 255]) + topic
+                        if L and tail is not None:
+                            sc.append('recv 0 %s' % hx(publish_pkt('a' * L, b'', 0)))       # the same topic bytes, well-formed, just before
                         sc.append('recv 0 %s' % hx(pkt(fb, body)))
                         sc.append('recv 0 %s' % hx(publish_pkt('ok', b'1', 0)))
                         if len(sc) > 80:
@@ -883,6 +897,9 @@ def _c14(ctx):
                 'idle-after-refusal': ['factory %d' % prof, 'build a0', 'sethandlers 0 7', 'connect 0 %s 0 311 1' % s_tok('c'), 'recv 0 20020005'],
                 'idle-after-loss': ['factory %d' % prof, 'build a0', 'sethandlers 0 5', 'connect 0 %s 0 311 1' % s_tok('c'), 'recv 0 20020000', 'lost 0 done'],
             }
+            M = 's:' + 'c3b1' * 40000       # 40000 characters, 80000 bytes: cannot be encoded
+            situations['idle-after-unencodable-connect'] = ['factory %d' % prof, 'build a0', 'sethandlers 0 7', 'connect 0 %s 0 311 1 %s %s 1 0' % (s_tok('c'), s_tok('w'), M)]
+            situations['idle-after-invalid-connect'] = ['factory %d' % prof, 'build a0', 'sethandlers 0 7', 'connect 0 %s 65536 311 1' % s_tok('c')]
             for name, pre in situations.items():
                 for a in apis:
                     out.append(('%d-%s-api' % (prof, name), pre + [a.format(p=0)]))
@@ -950,7 +967,7 @@ def c20(ctx):
         out.append('connect %d %s 0 311 1 n n 0 0 n %s' % (p, C, s_tok('pw')))
         out.append('connect %d %s 0 311 1 n n 0 0 %s %s' % (p, C, s_tok('u'), s_tok('pw')))
         for pos in range(5):
-            for big in (S65535, S65536):
+            for big in (S65535, S65536, M65536, 's:' + 'e282ac' * 21846):      # ASCII at/over the limit; fewer than 65536 characters but more bytes
                 args = ['n', 'n', '0', '0', 'n', 'n']
                 cid = C
                 if pos == 0: cid = big
@@ -1205,6 +1222,8 @@ def c19(ctx):
         scen = walks(ctx, n, 70, 19000, weights=W, naddr=2, profiles=(3, 3, 2, 1), keepalives=(0, 0, 2, 5))
         # unfinished requests on both addresses while the shared identifier counter wraps
         scen = corpus_scenarios('C19') + scen + wrapold_walks(ctx, 16 if ctx['tier'] == 'quick' else 300, 19500, w1=dict(lost=0))
+        scen = scen + [('flapping-neighbour', longrun.flapping_neighbour(20 if ctx['tier'] == 'quick' else 60), None),
+                       ('flapping-neighbour-idle', longrun.flapping_neighbour(20 if ctx['tier'] == 'quick' else 60, busy=False), None)]
     for item in scen:
         name, lines = item[0], item[1]
         tr = item[2] if len(item) > 2 and item[2] is not None else realworld.run_scenario(lines)
